@@ -1044,3 +1044,80 @@ func govcAllocRollback(t *testing.T, p *govcParams) govcOutcome {
 	}
 	return govcOutcome{detail: "every aborted transaction body left the allocator exactly as before"}
 }
+
+// ---------------------------------------------------------------------------
+// scenario regioncodec: free-list entry codec. The model's region (witness
+// reg.id / reg.count / isMeta) and the boundary counts are encoded with the
+// real encoder and decoded with the real decoder; reproduced if the round trip
+// or the predicted size disagrees.
+// ---------------------------------------------------------------------------
+
+func init() { govcScenarios["regioncodec"] = govcRegionCodec }
+
+func govcRegionCodec(t *testing.T, p *govcParams) govcOutcome {
+	type cand struct {
+		meta bool
+		reg  region
+	}
+	id := PageID(p.uintW("reg.id", 9))
+	if v, ok := p.Witness["r.id"]; ok && v != "" {
+		id = PageID(p.uintW("r.id", 9))
+	}
+	id &= (1 << 55) - 1
+	cnt := uint32(p.uintW("reg.count", 255))
+	if _, ok := p.Witness["r.count"]; ok {
+		cnt = uint32(p.uintW("r.count", 255))
+	}
+	if cnt == 0 {
+		cnt = 1
+	}
+	cands := []cand{{p.boolW("isMeta", false), region{id: id, count: cnt}}}
+	for _, c := range []uint32{1, 2, 253, 254, 255, 256, 257, 1 << 16, 1<<32 - 1} {
+		cands = append(cands, cand{false, region{id: id, count: c}}, cand{true, region{id: 2, count: c}})
+	}
+	for _, c := range cands {
+		var buf [maxRegionEncSz + 8]byte
+		for i := range buf {
+			buf[i] = 0xEE
+		}
+		n := encodeRegion(buf[:], c.meta, c.reg)
+		if want := regionEncodingSize(c.reg); n != want {
+			return govcOutcome{reproduced: true, detail: fmt.Sprintf("encodeRegion(%+v) wrote %d bytes, regionEncodingSize says %d", c.reg, n, want)}
+		}
+		for i := n; i < len(buf); i++ {
+			if buf[i] != 0xEE {
+				return govcOutcome{reproduced: true, detail: fmt.Sprintf("encodeRegion(%+v) wrote beyond its %d bytes (offset %d)", c.reg, n, i)}
+			}
+		}
+		m, r, dn := decodeRegion(buf[:])
+		if m != c.meta || r != c.reg || dn != n {
+			return govcOutcome{reproduced: true, detail: fmt.Sprintf("decode(encode(meta=%v, %+v)) = (meta=%v, %+v, %d bytes), encoded in %d bytes", c.meta, c.reg, m, r, dn, n)}
+		}
+	}
+	return govcOutcome{detail: fmt.Sprintf("round trip and size agree for %d regions incl. the model's {%d %d}", len(cands), id, cnt)}
+}
+
+// ---------------------------------------------------------------------------
+// scenario mergelists: mergeRegionLists must return a list that does not share
+// its array with an input (commit-time lists are edited in place afterwards).
+// ---------------------------------------------------------------------------
+
+func init() { govcScenarios["mergelists"] = govcMergeLists }
+
+func govcMergeLists(t *testing.T, p *govcParams) govcOutcome {
+	mk := func() regionList { return regionList{{id: 10, count: 5}, {id: 40, count: 60}} }
+	for _, tc := range []struct{ a, b regionList }{{mk(), nil}, {nil, mk()}, {mk(), regionList{{id: 200, count: 1}}}} {
+		res := mergeRegionLists(tc.a, tc.b)
+		if len(res) == 0 {
+			continue
+		}
+		for _, in := range []regionList{tc.a, tc.b} {
+			if len(in) > 0 && &in[0] == &res[0] {
+				before := in[len(in)-1]
+				res[len(res)-1].count = 1 // what releaseOverflowPages does to the merged list
+				return govcOutcome{reproduced: true, detail: fmt.Sprintf("mergeRegionLists(%v, %v) returned one of its inputs: trimming the result changed the input's last region %v -> %v", len(tc.a), len(tc.b), before, in[len(in)-1])}
+			}
+		}
+	}
+	return govcOutcome{detail: "result never aliases an input"}
+}
